@@ -50,7 +50,51 @@ fn enc_line(ops: &[OpCode]) -> (String, String) {
     (op, res)
 }
 
+/// Byte strings that differ from a standard signature covenant (new and legacy form, a fresh key) in exactly one byte:
+/// every position, with the byte flipped in its lowest bit and replaced by a few bytes that are opcodes, lengths or
+/// immediates elsewhere (thorough: by every other byte).  Nearly all of them are different programs or no programs —
+/// a shortcut that recognises "the" standard covenant by shape must not swallow any of them.
+pub fn std_near_misses(r: &mut Rng, thorough: bool) -> Vec<Vec<u8>> {
+    let mut k = [0u8; 32];
+    k.copy_from_slice(&r.bytes(32));
+    let pk = tmelcrypt::Ed25519PK(k);
+    let mut res = vec![];
+    for base in [Covenant::std_ed25519_pk_new(pk).to_bytes(), Covenant::std_ed25519_pk_legacy(pk).to_bytes()] {
+        res.push(base.to_vec());
+        for i in 0..base.len() {
+            let mut vals: Vec<u8> = if thorough {
+                (0..=255u8).collect()
+            } else {
+                vec![base[i] ^ 1, 0x00, 0x01, 0x09, 0x1f, 0x20, 0x21, 0x30, 0x32, 0x42, 0x43, 0xa0, 0xa1, 0xa2, 0xb0, 0xf0, 0xf1, 0xf2, 0xff, r.next() as u8]
+            };
+            vals.sort();
+            vals.dedup();
+            for v in vals {
+                if v != base[i] {
+                    let mut b = base.to_vec();
+                    b[i] = v;
+                    res.push(b);
+                }
+            }
+        }
+        // one byte dropped / one byte doubled at a few positions
+        for _ in 0..12 {
+            let i = r.below(base.len() as u64) as usize;
+            let mut b = base.to_vec();
+            b.remove(i);
+            res.push(b);
+            let mut b = base.to_vec();
+            b.insert(i, base[i]);
+            res.push(b);
+        }
+    }
+    res
+}
+
 pub fn codec(r: &mut Rng, n: usize, thorough: bool, out: &mut Out) {
+    for b in std_near_misses(r, thorough) {
+        out.emit2(dec_line(&b));
+    }
     // exhaustive: all strings of length <= 2 (and, thorough, every 3-byte string)
     out.emit2(dec_line(&[]));
     for a in 0..=255u8 {
@@ -208,6 +252,9 @@ fn emit_w(out: &mut Out, bytes: &[u8]) {
 pub fn weight(r: &mut Rng, n: usize, thorough: bool, out: &mut Out) {
     use OpCode::*;
     emit_w(out, &[]);
+    for b in std_near_misses(r, thorough) {
+        emit_w(out, &b);
+    }
     for op in vmgen::all_ops(r) {
         if let Ok(b) = catch_unwind(|| Covenant::from_ops(&[op.clone()]).to_bytes()) {
             emit_w(out, &b);
